@@ -5,25 +5,81 @@ from . import seqcheck
 from .report import Verdict
 
 
+def _conc_pass(v, tier, families, props):
+    """The property's own clauses on CONCURRENT executions: the interleavings explored for the
+    given families (shared, cached exploration of the same tree), judged by TraceLin's I_Cxx_Conc
+    clauses.  Coverage of the pass is recorded under coverage.concurrent_pass."""
+    from . import conccheck
+    for family in families:
+        inst_kw = conccheck.META_INST if family == "C12" else conccheck.OBJ_INST
+        results = conccheck.run_family(family, tier)
+        viol, r, n_out, n_states = conccheck.judge(results, inst_kw)
+        keep, v.coverage = v.coverage, {}
+        conccheck.report(v, results, viol, props, r, n_out, n_states)
+        sub, v.coverage = v.coverage, keep
+        keep.setdefault("concurrent_pass", {})[family] = {
+            k: sub.get(k) for k in ("scenarios", "evaluations", "states",
+                                    "traces_validated_against_impl", "exhaustive",
+                                    "non_exhaustive_scenarios",
+                                    "exploration_reused_from_cache_for_same_tree",
+                                    "nondeterministic_replays")}
+    v.coverage["checker_cmd"] = v.coverage.get("checker_cmd", "") + \
+        " ; harness.conc explorer (%s) ; tlc TraceLin (I_%s_Conc)" % ("+".join(families), v.prop)
+
+
+def _fault_pass(v, tier, props):
+    """The property's own clauses on executions with one injected I/O failure (TraceFault's
+    I_Cxx_Fault clauses)."""
+    from . import crashfault
+    results = crashfault.run(tier, ("fault",))
+    viol, r, nc, nf = crashfault.judge(results)
+    keep, v.coverage = v.coverage, {}
+    crashfault.report(v, results, viol, props, nc, nf)
+    sub, v.coverage = v.coverage, keep
+    keep["fault_pass"] = {k: sub.get(k) for k in ("scenarios", "fault_injections", "distinct_nontrivial")}
+    v.coverage["checker_cmd"] = v.coverage.get("checker_cmd", "") + \
+        " ; harness.crashfault enumerator ; tlc TraceFault (I_%s_Fault)" % v.prop
+
+
+def _identifier_passes(v, prop, tier, seed, cfg):
+    """The same walk with pid strings that tempt an implementation to alias them: pids that
+    differ only in letter case, and pids that are the paths of existing files (two of them with
+    identical content)."""
+    from . import adversarial, tlc
+    base = "DOI:10.18739/A2901zh2m"
+    alt = {"p1": base, "p2": base.lower(), "p3": base.upper()}
+    pids = seqcheck.CONFIGS[cfg]["inst"]["pids"]
+    seqcheck.run(prop, tier, seed, cfg, finish=False, verdict=v,
+                 inst_over={"pid_strings": {p: alt[p] for p in pids}})
+    fp = adversarial.file_pids(seed, tlc.scratch_root())
+    seqcheck.run(prop, tier, seed, cfg, finish=False, verdict=v,
+                 inst_over={"pid_strings": {p: fp[p] for p in pids}})
+
+
 def check_C03(tier, seed):
-    return seqcheck.run("C03", tier, seed, "obj2" if tier == "quick" else "obj3")
+    cfg = "obj2" if tier == "quick" else "obj3"
+    v = seqcheck.run("C03", tier, seed, cfg, finish=False)
+    _identifier_passes(v, "C03", tier, seed, cfg)
+    _conc_pass(v, tier, ["C07"], {"C03"})
+    _fault_pass(v, tier, {"C03"})
+    return v.finish()
 
 
 def check_C04(tier, seed):
     cfg = "obj2" if tier == "quick" else "obj3"
     v = seqcheck.run("C04", tier, seed, cfg, finish=False)
-    # second pass: pids that differ only in letter case / are suffixes of one another
-    base = "DOI:10.18739/A2901zh2m"
-    alt = {"p1": base, "p2": base.lower(), "p3": base.upper()}
-    pids = seqcheck.CONFIGS[cfg]["inst"]["pids"]
-    seqcheck.run("C04", tier, seed, cfg, finish=False, verdict=v,
-                 inst_over={"pid_strings": {p: alt[p] for p in pids}})
+    # further passes: pids that differ only in letter case / that name existing files
+    _identifier_passes(v, "C04", tier, seed, cfg)
+    _conc_pass(v, tier, ["C07"], {"C04"})
+    _fault_pass(v, tier, {"C04"})
     return v.finish()
 
 
 def check_C05(tier, seed):
-    return seqcheck.run("C05", tier, seed, "obj2" if tier == "quick" else "obj3",
-                        random_histories=16 if tier == "quick" else 200)
+    v = seqcheck.run("C05", tier, seed, "obj2" if tier == "quick" else "obj3",
+                     random_histories=16 if tier == "quick" else 200, finish=False)
+    _conc_pass(v, tier, ["C07"], {"C05"})
+    return v.finish()
 
 
 def _colliding_pids(n, algo="sha256"):
@@ -48,6 +104,8 @@ def check_C11(tier, seed):
     coll = _colliding_pids(len(pids))
     seqcheck.run("C11", tier, seed, "meta2", finish=False, verdict=v,
                  inst_over={"depth": 1, "width": 1, "pid_strings": dict(zip(pids, coll))})
+    _conc_pass(v, tier, ["C12"], {"C11"})
+    _fault_pass(v, tier, {"C11"})
     return v.finish()
 
 
@@ -316,6 +374,7 @@ def check_C06(tier, seed):
     v.coverage["verdict_product_records"] = len(records)
     v.coverage["samples"].append(records[0])
     v.coverage["checker_cmd"] += " ; tlc TraceTables (I_C06_Valid, I_C06_Invalid)"
+    _conc_pass(v, tier, ["C07"], {"C06"})
     return v.finish()
 
 
@@ -341,6 +400,9 @@ def check_C01(tier, seed):
     v.coverage["samples"].append(records[0])
     v.coverage["checker_cmd"] += " ; tlc TraceTables (I_C01_Sweep)"
     v.assumptions.append("sizes around 4096 and 8192 (the two read-buffer sizes Stream chooses: st_blksize of a file on this file system, 8192 for in-memory streams)")
+    _identifier_passes(v, "C01", tier, seed, "obj2")
+    _conc_pass(v, tier, ["C07", "R"], {"C01"})
+    _fault_pass(v, tier, {"C01"})
     return v.finish()
 
 
